@@ -1,13 +1,14 @@
+\* NO VIEW: every history is a state of its own, so every PATH to an abstract state is replayed (hidden implementation
+\* state may depend on how a state was reached: emptied by retain vs by remove, root a leaf vs a node, ...)
 SPECIFICATION Spec
 CONSTANTS
   Patterns <- PCase
-  Ids = {"i1", "i2", "i3"}
+  Ids = {"i1", "i2"}
   Haystacks <- ProbesCase
-  KeepSets = {{"i1"}}
+  KeepSets = {{"i1"}, {"i9"}}
   Limits = {1}
   Levels = {99}
   IgnoreCase = {TRUE}
   MaxOps = 4
-VIEW ViewKinds
 INVARIANTS FindCorrect LenCorrect GetCorrect TreeInv RemoveReturnsValue CacheTransparent CacheBudget Emit
 CHECK_DEADLOCK FALSE
